@@ -21,14 +21,15 @@
 //! observation (after '|'):   `env:<n>:rp<in-attempt re-prepares merged>:sh<shards per node>` followed by one record per (logical request, page), or
 //! `skip-env <reason>` when the session could not be built for lack of loopback ports.
 //!   record  R;api=<a>;idem=<0|1>;pol=<policy>;spec=<-|max:interval ms>;cl=<consistency>;n=<nodes>;
-//!           down=<nodes whose connection the mock has cut so far>;pg=<page>;t0=<us>;tr=<us>;mg=<us>;
+//!           down=<nodes whose connection the mock has cut so far>;pg=<page>;t0=<us>;tr=<us>;mg=<us>;sm=<us>;
 //!           to=<client-side request timeout of the statement in ms | ->;
 //!           res=<result>;co=<coordinator node named by the result | ->;fr=<frame>,<frame>...
 //!   frame   <node>/<consistency>/<arrival us>/<answer us | ->/<ok | drop | X<error token> | ->/<shard>
 //!   result  rows | void | end | X<error token> | pool | emptyplan | timeout | hang | other:<text>
 //!   t0 = lower bound of the instant the driver started executing this page, tr = upper bound of the
 //!   instant it returned, mg = margin below which two answer times are treated as simultaneous
-//!   (150 ms + 3 x the largest scheduling stall measured while the request ran).  All times are in
+//!   (150 ms + 3 x the largest scheduling stall measured while the request ran), sm = the same with 20 ms
+//!   (within it a logged answer is taken to have been processed by the driver).  All times are in
 //!   microseconds of the mock's clock (hex), frames in arrival order.
 #![allow(dead_code)]
 use futures::StreamExt;
@@ -77,6 +78,8 @@ const SLOW_MS: u64 = 300;
 const TIMEOUT_MS: u64 = 100;
 /// two answer times closer than this (plus the measured stall) are treated as simultaneous
 const MARGIN_US: u64 = 150_000;
+/// an answer the mock has logged is taken to be processed by the driver within this (plus the stall)
+const SMALL_MARGIN_US: u64 = 20_000;
 
 const CLS: [(&str, Consistency, u16); 11] = [
     ("Any", Consistency::Any, 0),
@@ -491,7 +494,11 @@ fn gen_req(r: &mut Rng, mix: Mix, default: &Cfg, allow_drop: bool, shards: u16) 
         let last = pages.len() - 1;
         let reply = pages[last].first().map(|o| o.reply.clone()).unwrap_or(Reply::Ok);
         let slow = Outcome { delay_ms: SLOW_MS, reply: if reply == Reply::Drop { Reply::Ok } else { reply } };
-        if pages[last].is_empty() {
+        if r.chance(1, 3) {
+            // near the boundary: an Unavailable answered 85 ms after the first frame, so that (under a
+            // retrying policy) the NEXT frame is sent ~15 ms before the 100 ms timeout fires
+            pages[last] = vec![Outcome { delay_ms: TIMEOUT_MS - 15, reply: Reply::Err("Db.Unavailable:Quorum:2:1".into()) }, slow];
+        } else if pages[last].is_empty() {
             pages[last].push(slow);
         } else {
             pages[last][0] = slow;
@@ -1206,7 +1213,7 @@ pub async fn run_scenario(mix: Mix, sseed: u64, thorough: bool) -> String {
                 })
                 .collect();
             out.push(format!(
-                "R;api={};idem={};pol={};spec={};cl={};n={:x};down={};pg={:x};t0={:x};tr={:x};mg={:x};to={};res={};co={};fr={}",
+                "R;api={};idem={};pol={};spec={};cl={};n={:x};down={};pg={:x};t0={:x};tr={:x};mg={:x};sm={:x};to={};res={};co={};fr={}",
                 req.api.tag(),
                 req.idem as u8,
                 POLICIES[ro.cfg.pol],
@@ -1218,6 +1225,7 @@ pub async fn run_scenario(mix: Mix, sseed: u64, thorough: bool) -> String {
                 t0,
                 tret,
                 MARGIN_US + 3 * ro.jitter_us,
+                SMALL_MARGIN_US + 3 * ro.jitter_us,
                 req.timeout_ms.map(|t| format!("{:x}", t)).unwrap_or("-".into()),
                 res,
                 co.map(|n| format!("{:x}", n)).unwrap_or("-".into()),
